@@ -10,8 +10,8 @@ Definition d_block (d : deposit) : Z := fst (fst d).
 Definition d_dest (d : deposit) : N := snd (fst d).
 Definition d_nonce (d : deposit) : N := snd d.
 
-(* a group of messages as sent to the message channel: message id, destination, nonces in order *)
-Definition mgroup := (string * N * list N)%type.
+(* a group of messages as sent to the message channel: message id, destination, nonces in order:
+   [mgroup] of Model/C19.v *)
 
 (* one relayer: configuration, initial store contents, environment script; what it did *)
 Inductive relayer :=
@@ -45,7 +45,20 @@ Inductive case :=
 | SubF (mid : string) (props : list (N * bool)) (rels : list (list bool * list (list N * list string)))
 (* Bitcoin: per proposal (deposit nonce, resource id), executed (block-store record); per relayer its
    fault mask and per goroutine the nonces it put into its transaction and the resource it asked for *)
-| BexecF (props : list (N * N * bool)) (rels : list (list bool * list (list N * option N))).
+| BexecF (props : list (N * N * bool)) (rels : list (list bool * list (list N * option N)))
+(* a retry event handler (EVM RetryV1EventHandler / Substrate RetryEventHandler: ONE long-lived object)
+   run 32..64 times on the range [s, e]: per retry event of the range, in log order, the deposits it names
+   (destination, nonce, already executed); per repetition the groups sent, sorted by destination *)
+| Retry (k : kind) (s e : Z) (evs : list (list rdep)) (runs : list (list mgroup))
+(* ONE long-lived deposit event handler (and the retry message handler built over it, as app.go wires them)
+   serving several calls: [(s, e, None)] = ProcessDeposits on the range (the listener's scan),
+   [(h, h, Some d)] = a retry message for destination d and block h (RetryMessageHandler.HandleMessage);
+   [seq] = what every call sent when they were made one after the other, [runs] = the same per further
+   sequential repetition and per schedule in which all calls ran at the same time in goroutines of their own
+   (GOMAXPROCS 1 and many, fakes that yield at every call, repeated calls); Bitcoin nonces are translated
+   back to the number of the transaction (0 = not the nonce of any transaction of the chain) *)
+| Conc (k : kind) (deps : list deposit) (calls : list (Z * Z * option N)) (seq : list (list mgroup))
+       (runs : list (list (list mgroup))).
 
 Definition src_domain : Z := 1.
 
@@ -134,6 +147,21 @@ Definition ref_of {X : Type} (rels : list (list bool * list X)) : list X :=
 Definition first_clean {X : Type} (rels : list (list bool * list X)) : bool :=
   match rels with (m, _) :: _ => negb (existsb (fun b => b) m) | [] => false end.
 
+(* what one call of a concurrent case must send: the deposits of its range grouped by destination in chain
+   order under the id of the range, destinations ascending; a retry message keeps its destination's group *)
+Definition call_model (k : kind) (deps : list deposit) (c : Z * Z * option N) : list mgroup :=
+  let '(s, e, od) := c in
+  let ds := filter (fun d => (s <=? d_block d) && (d_block d <=? e)) deps in
+  let all := map (fun dst => (match k with
+                              | Btc => btc_message_id src_domain (Z.of_N dst) s
+                              | _ => message_id src_domain (Z.of_N dst) s e
+                              end, dst, map d_nonce (lookup dst (group d_dest ds))))
+                 (dests_sorted (map d_dest ds)) in
+  match od with
+  | None => all
+  | Some d => filter (fun g : mgroup => N.eqb (snd (fst g)) d) all
+  end.
+
 Definition agree (c : case) : bool :=
   match c with
   | Pair k i deps a b => rel_agree k i deps a && rel_agree k i deps b
@@ -152,6 +180,9 @@ Definition agree (c : case) : bool :=
       first_clean rels && forallb (fun r => sess_eqb (sub_exec mid (mark props (fst r))) (snd r)) rels
   | BexecF props rels =>
       first_clean rels && forallb (fun r => bgroups_eqb (btc_exec (mark props (fst r))) (snd r)) rels
+  (* chain order, as the model says *)
+  | Retry k s e evs runs => match runs with r :: _ => mgl_eqb (retry_model src_domain s e evs) r | [] => false end
+  | Conc k deps calls seq runs => mgll_eqb (map (call_model k deps) calls) seq
   end.
 
 Definition judge (c : case) : bool :=
@@ -167,6 +198,10 @@ Definition judge (c : case) : bool :=
   | SessF _ _ _ _ rels => faulty_ok sess1_eqb (ref_of rels) (map snd rels)
   | SubF _ _ rels => faulty_ok sess1_eqb (ref_of rels) (map snd rels)
   | BexecF _ rels => faulty_ok bgroup1_eqb (ref_of rels) (map snd rels)
+  (* never on map iteration order: the same groups, in the same order, in every repetition *)
+  | Retry _ _ _ _ runs => reps_ok runs
+  (* never on timing: every call sends under every schedule what it sends when the calls do not overlap *)
+  | Conc _ _ _ seq runs => conc_ok seq runs
   end.
 
 Definition tag (c : case) : N :=
@@ -181,6 +216,10 @@ Definition tag (c : case) : N :=
   | SessF mid cap tg props _ => match evm_exec mid cap tg (mark props []) with [] => 16%N | [_] => 17%N | _ => 18%N end
   | SubF mid props _ => match sub_exec mid (mark props []) with [] => 19%N | _ => 20%N end
   | BexecF props _ => match btc_exec (mark props []) with [] => 21%N | [_] => 22%N | _ => 23%N end
+  | Retry k _ _ evs _ =>
+      ((match k with Evm => 24 | _ => 26 end)
+       + (if existsb (fun g : N * list rdep => Nat.leb 2 (List.length (snd g))) (retry_groups evs) then 1 else 0))%N
+  | Conc k _ _ _ _ => match k with Evm => 28%N | Sub => 29%N | Btc => 30%N end
   end.
 
 Definition check_all := check_cases agree judge tag.
